@@ -95,6 +95,15 @@ def run(ck, rng, tier):
         if miss and rng.random() < 0.5:
             v[rng.randrange(n)] = MISSING
         if rng.random() < 0.2:
+            # cells NEXT TO the missing-value code but outside its +-0.1 window are ordinary numbers
+            E[rng.randrange(m)][rng.randrange(n)] = rng.choice((MISSING + 0.5, 1e8, MISSING - 0.7, MISSING + 9.0))
+            if rng.random() < 0.5:
+                v[rng.randrange(n)] = rng.choice((MISSING + 0.5, 1e8)); w[rng.randrange(m)] = rng.choice((MISSING - 0.7, 1e8))
+            ck.count("cells next to the missing-value code (ordinary numbers)")
+        if miss and rng.random() < 0.5:
+            # cells inside the window without being the code itself: missing
+            E[rng.randrange(m)][rng.randrange(n)] = rng.choice((MISSING + 0.05, MISSING - 0.09))
+        if rng.random() < 0.2:
             a_, b_ = plant(rng); i_, j_ = rng.randrange(m), rng.randrange(n)
             E[i_][j_] = a_; v[j_] = b_; w[i_] = b_
             ck.count("operand pairs with product next to the missing-value code")
@@ -120,7 +129,10 @@ def run(ck, rng, tier):
         inp.append("outer %s %s" % (vf.fmt_vec(a), vf.fmt_vec(b)))
         meta.append(("outer", (m, n), a, b))
         M = rmat(rng, m, n, rng.choice((None, 0, 3)))
-        if _ % 5 == 0:   # columns far from the origin compared with their spread
+        if _ % 7 == 3:   # a matrix whose columns lie entirely just above (or below the negative of) the missing-value code
+            sgn_ = rng.choice((1.0, -1.0))
+            M = [[sgn_ * (1.0000005e8 + 3.0 * b + rng.uniform(0, 2.5)) for b in range(n)] for a in range(m)]
+        elif _ % 5 == 0:   # columns far from the origin compared with their spread
             M = [[1e4 * (1 + b) + 1e-2 * rng.gauss(0, 1) for b in range(n)] for a in range(m)]
         elif rng.random() < 0.2 and m > 2:
             M[rng.randrange(1, m)][rng.randrange(n)] = MISSING
@@ -155,6 +167,9 @@ def run(ck, rng, tier):
     if rc != 0 or len(outs) != len(meta):
         ck.broken("driver drv_kernels", "rc=%s cases=%d/%d %s" % (rc, len(outs), len(meta), err[-800:]))
         return
+    for op_ in ("outer", "unary"):
+        sel_ = [k for k in range(len(meta)) if meta[k][0] == op_]
+        vf.reuse_scan(ck, "drv_kernels:" + op_, [outs[k] for k in sel_], lambda j, sel_=sel_: {"op": op_, "operands": [list(x) if isinstance(x, (list, tuple)) else x for x in meta[sel_[j]][2:4]]})
     checks = vf.Checks()
     direct_fail = {}
     for i, (mt, o) in enumerate(zip(meta, outs)):
